@@ -85,3 +85,23 @@ def runRaw (args : List String) : String :=
   | _ => "bad-op"
 
 end Dblib.Reader
+
+namespace Dblib.Reader
+
+/-- `sendPackets` over the `total` packets of a request when the transport's `k`-th write fails:
+the loop returns the error of the first failing `sendPacket`; the packets before it are on the wire -/
+def sendWriteFail (total k : Nat) : Bool × Nat :=
+  if 1 ≤ k ∧ k ≤ total then (false, k - 1) else (true, total)
+
+/-- `wf <n> <k>`: a request of n bytes at packet size 512 -/
+def runWf (args : List String) : String :=
+  match args with
+  | [n, k] =>
+    match n.toNat?, k.toNat? with
+    | some n, some k =>
+      let r := sendWriteFail ((n + 503) / 504) k
+      s!"send={if r.1 then "ok" else "err"} packets={r.2}"
+    | _, _ => "bad-op"
+  | _ => "bad-op"
+
+end Dblib.Reader
